@@ -134,6 +134,17 @@ func codecPairs(encName string, versions []kmip.ProtocolVersion) func() {
 				names = append(names, n+" request", n+" response")
 			}
 		}
+		// two large messages (above the sizes an encoder buffer starts with / has grown to after small messages)
+		for _, n := range []int{9000, 40000} {
+			key := make([]byte, n)
+			for k := range key {
+				key[k] = byte(k*5 + 3)
+			}
+			ms = append(ms, &kmip.ResponseMessage{Header: kmip.ResponseHeader{ProtocolVersion: kmip.V1_4, BatchCount: 1},
+				BatchItem: []kmip.ResponseBatchItem{{Operation: kmip.OperationGet, ResponsePayload: &payloads.GetResponsePayload{ObjectType: kmip.ObjectTypeSecretData, UniqueIdentifier: "big",
+					Object: &kmip.SecretData{SecretDataType: kmip.SecretDataTypePassword, KeyBlock: kmip.KeyBlock{KeyFormatType: kmip.KeyFormatTypeOpaque, KeyValue: &kmip.KeyValue{Plain: &kmip.PlainKeyValue{KeyMaterial: kmip.KeyMaterial{Bytes: &key}}}}}}}}})
+			names = append(names, fmt.Sprintf("Get response with %d bytes of material", n))
+		}
 		refs := make([]string, len(ms))
 		for i, m := range ms {
 			ttlv.ZZVerifReset()
@@ -309,6 +320,9 @@ func init() {
 	cs([]string{"dec-create14-json"}, []string{"dec-create14-json"})
 	cs([]string{"enc-req14-ttlv"}, []string{"enc-req14-ttlv"})
 	cs([]string{"enc-resp14-xml"}, []string{"enc-resp14-xml"})
+	cs([]string{"enc-eckey-a-ttlv"}, []string{"enc-eckey-b-ttlv"})
+	cs([]string{"enc-eckey-a-ttlv"}, []string{"enc-eckey-b-xml"})
+	cs([]string{"enc-eckey-a-json"}, []string{"enc-eckey-b-xml"})
 	cs([]string{"dec-trunc-req12-ttlv"}, []string{"dec-req12-ttlv"})
 	cs([]string{"dec-trunc-resp13-xml"}, []string{"dec-trunc-resp13-xml"})
 	cs([]string{"dec-trunc-create14-json"}, []string{"dec-create14-json"})
